@@ -486,6 +486,120 @@ theorem stepItems_hdr (P : Profile) (st st' : DecSt) (its : List Item) (h : step
       rw [hs] at h
       rw [ih st1 h, stepItem_hdr P st st1 it hs]
 
+/-! ### nor is the header the File carries -/
+
+/-- the header recorded in the File under construction -/
+def DecSt.fhdr (st : DecSt) : Option Header := st.file.map (·.hdr)
+
+theorem FileSt.add_hdr (P : Profile) (f : FileSt) (m : Msg) (g : Globals) (f' : FileSt) (g' : Globals)
+    (h : f.add P m g = some (f', g')) : f'.hdr = f.hdr := by
+  unfold FileSt.add at h
+  repeat' (split at h)
+  all_goals first
+    | (cases h; rfl)
+    | (cases h; done)
+    | (injection h with h; injection h with h1 h2; rw [← h1])
+
+
+theorem stepFields_fhdr (P : Profile) (dm : DefMsg) (known : Bool) (fds : List FieldDef) (raws : List Bytes)
+    (m : Option Msg) (st : DecSt) (m' : Option Msg) (st' : DecSt)
+    (h : stepFields P dm known fds raws m st = .ok m' st') : st'.fhdr = st.fhdr := by
+  induction fds generalizing raws m st with
+  | nil => simp only [stepFields] at h; cases h; rfl
+  | cons fd fds ih =>
+    cases raws with
+    | nil => simp only [stepFields] at h; cases h; rfl
+    | cons raw raws =>
+      unfold stepFields at h
+      dsimp only at h
+      split at h
+      · cases h
+      · cases h
+      · have := ih raws _ _ h
+        rw [this]
+        simp only [DecSt.setTs]
+        split <;> rfl
+
+theorem stepDev_fhdr (ds : List DevDesc) (raws : List Bytes) (st : DecSt) : (stepDev ds raws st).fhdr = st.fhdr := by
+  induction ds generalizing raws st with
+  | nil => simp [stepDev]
+  | cons d ds ih =>
+    cases raws with
+    | nil => simp [stepDev]
+    | cons raw raws => unfold stepDev; rw [ih]; rfl
+
+theorem dataPre_go_fhdr (P : Profile) (hb : Nat) (compressed : Bool) (st : DecSt) (dm : DefMsg) (m : Option Msg)
+    (st' : DecSt) (h : dataPre P hb compressed st = .go dm m st') : st'.fhdr = st.fhdr := by
+  unfold dataPre at h
+  dsimp only at h
+  cases hd : st.defs.getD (if compressed = true then hb / 32 % 4 else hb % 16) none with
+  | none => rw [hd] at h; cases h
+  | some dm0 =>
+    rw [hd] at h
+    dsimp only at h
+    repeat' (split at h)
+    all_goals first | (cases h; rfl) | cases h
+
+theorem addMsg_fhdr (P : Profile) (m : Option Msg) (st st' : DecSt) (h : addMsg P m st = some st') : st'.fhdr = st.fhdr := by
+  unfold addMsg at h
+  split at h
+  · cases h; rfl
+  · split at h
+    · cases h
+    · split at h
+      · cases h
+      · rename_i f hf _ f' g' hadd
+        cases h
+        simp only [DecSt.fhdr, hf, Option.map_some, FileSt.add_hdr P f _ _ f' g' hadd]
+
+theorem stepItem_fhdr (P : Profile) (st st' : DecSt) (it : Item) (h : stepItem P st it = .ok st') : st'.fhdr = st.fhdr := by
+  have data : ∀ hb c fs dev (st0 : DecSt), stepData P hb c fs dev st0 = .ok st' → st'.fhdr = st0.fhdr := by
+    intro hb c fs dev st0 h
+    rw [stepData_pre] at h
+    cases hp : dataPre P hb c st0 with
+    | stop p st1 => rw [hp] at h; cases p <;> cases h
+    | go dm m st1 =>
+      rw [hp] at h
+      simp only at h
+      cases hsf : stepFields P dm (P.known dm.global) dm.fields fs m st1 with
+      | fail o => rw [hsf] at h; cases h
+      | ok m2 st2 =>
+        rw [hsf] at h
+        simp only at h
+        cases ha : addMsg P m2 (stepDev dm.dev dev st2) with
+        | none => rw [ha] at h; cases h
+        | some st3 =>
+          rw [ha] at h
+          cases h
+          rw [addMsg_fhdr P _ _ _ ha, stepDev_fhdr, stepFields_fhdr P dm _ _ _ _ _ _ _ hsf, dataPre_go_fhdr P hb c st0 dm m st1 hp]
+  cases it with
+  | defn d devBit =>
+    unfold stepItem at h
+    simp only at h
+    split at h
+    · cases h
+    · split at h
+      · cases h
+      · cases h; rfl
+  | data l fs dev =>
+    simp only [stepItem] at h
+    rw [data _ _ _ _ _ h]; rfl
+  | cdata l off fs dev =>
+    simp only [stepItem] at h
+    rw [data _ _ _ _ _ h]; rfl
+
+theorem stepItems_fhdr (P : Profile) (st st' : DecSt) (its : List Item) (h : stepItems P st its = .ok st') :
+    st'.fhdr = st.fhdr := by
+  induction its generalizing st with
+  | nil => simp only [stepItems] at h; cases h; rfl
+  | cons it its ih =>
+    unfold stepItems at h
+    cases hs : stepItem P st it with
+    | stop o => rw [hs] at h; cases h
+    | ok st1 =>
+      rw [hs] at h
+      rw [ih st1 h, stepItem_fhdr P st st1 it hs]
+
 theorem serialize_length_ge (its : List Item) : its.length ≤ (serialize its).length := by
   induction its with
   | nil => simp [serialize]
@@ -724,5 +838,104 @@ theorem decode_frame_ok (P : Profile) (o : Opts) (k : HdrKind) (g : Globals) (pr
           have hzero : update st'.crc [lo fc, hi fc] = 0#16 := by rw [hcrc]; exact update_lo_hi fc
           simp only [List.cons_append, List.nil_append, List.take_succ_cons, List.take_zero, hzero, ↓reduceIte,
             lo_hi_leNat]
+
+
+/-- **`DecodeHeader` on a frame**: the header of the frame, and nothing of the records, whatever they are. -/
+theorem decode_frame_header_only (P : Profile) (o : Opts) (k : HdrKind) (g : Globals) (proto profile : Nat)
+    (recs tail : Bytes) (stop : Stop) (hp : proto < 256) (hp2 : proto / 16 ≤ protoMajorMax) :
+    (decodeSpec P o .headerOnly g (frameBytesK k proto profile recs ++ tail) stop).1 =
+      finalize o (okOut { afterHeader k g proto profile recs.length with
+        file := some { hdr := (afterHeader k g proto profile recs.length).hdr, fileId := zeroFileId P } }) := by
+  unfold decodeSpec
+  simp only
+  congr 1
+  unfold decodeProg
+  rw [frame_header_step P .headerOnly k g proto profile recs tail stop hp hp2]
+  simp only [runSpec]
+
+/-- **`DecodeHeaderAndFileID` on a frame**: the header of the frame and the message of its first data
+    record — the state the record machine reaches after the file_id definition and data record. -/
+theorem decode_frame_fileid_only (P : Profile) (o : Opts) (k : HdrKind) (g : Globals) (proto profile : Nat)
+    (d0 : DefMsg) (b0 : Bool) (fs dev : List Bytes) (rest : List Item) (tail : Bytes) (stop : Stop) (st1 st2 : DecSt)
+    (hp : proto < 256) (hp2 : proto / 16 ≤ protoMajorMax)
+    (hwf0 : DefnWF d0 b0) (hg : d0.global = mnFileId) (hkn : P.known mnFileId = true)
+    (hlen : (serialize (.defn d0 b0 :: .data d0.localT fs dev :: rest)).length < 4294967296)
+    (hfit : ItemsFitD P (List.replicate 16 none) (.defn d0 b0 :: .data d0.localT fs dev :: rest))
+    (h1 : stepItem P (recState0 P k g proto profile (serialize (.defn d0 b0 :: .data d0.localT fs dev :: rest)).length)
+      (.defn d0 b0) = .ok st1)
+    (h2 : stepItem P st1 (.data d0.localT fs dev) = .ok st2) :
+    (decodeSpec P o .fileIdOnly g
+      (frameBytesK k proto profile (serialize (.defn d0 b0 :: .data d0.localT fs dev :: rest)) ++ tail) stop).1 =
+      finalize o (okOut st2) := by
+  obtain ⟨hokd0, hokdr, _⟩ := hfit
+  have hd1 := stepItem_defs P _ st1 _ (ItemOKD.toOK (recState0 P k g proto profile _) _ hokd0) h1
+  have hok2 : ItemOK st1 (.data d0.localT fs dev) := by
+    apply ItemOKD.toOK
+    rw [hd1]; exact hokdr
+  generalize hL : (serialize (.defn d0 b0 :: .data d0.localT fs dev :: rest)).length = L at *
+  have hser : serialize (.defn d0 b0 :: .data d0.localT fs dev :: rest) =
+      serializeItem (.defn d0 b0) ++ (serializeItem (.data d0.localT fs dev) ++ serialize rest) := by
+    rw [serialize_cons, serialize_cons]
+  have hLsum : L = (serializeItem (.defn d0 b0)).length + (serializeItem (.data d0.localT fs dev)).length +
+      (serialize rest).length := by
+    rw [← hL, hser]; simp only [List.length_append]; omega
+  unfold decodeSpec
+  simp only
+  congr 1
+  unfold decodeProg
+  rw [frame_header_step P .fileIdOnly k g proto profile _ tail stop hp hp2]
+  rw [hL]
+  simp only [runSpec]
+  have hlim : (afterHeader k g proto profile L).hdr.dataSize = L := Nat.mod_eq_of_lt hlen
+  rw [hlim]
+  have hst0 : ({ afterHeader k g proto profile L with
+      file := some { hdr := (afterHeader k g proto profile L).hdr, fileId := zeroFileId P },
+      unkInit := true } : DecSt) = recState0 P k g proto profile L := rfl
+  rw [hst0]
+  unfold recordsProg
+  rw [run_parseFileIdMsg_ok P L _ d0 b0 hwf0 hg hkn fs dev _ st1 st2 0 _
+    (serialize rest ++ [lo (checksum (frameHdr k proto profile L ++ serialize (.defn d0 b0 :: .data d0.localT fs dev :: rest))),
+      hi (checksum (frameHdr k proto profile L ++ serialize (.defn d0 b0 :: .data d0.localT fs dev :: rest)))] ++ tail)
+    h1 h2 hok2 (by show d0.localT < (List.replicate 16 none).length; simp; exact hwf0.localT)
+    (by rw [hser]; simp only [List.append_assoc]) (by omega)]
+  simp only [↓reduceIte, runSpecD]
+
+
+theorem FileSt.init_hdr (P : Profile) (f f' : FileSt) (h : f.init P = .ok f') : f'.hdr = f.hdr := by
+  unfold FileSt.init at h
+  split at h
+  · cases h; rfl
+  · cases h
+  · cases h
+
+/-- the File the record machine returns carries the header it was started with -/
+theorem runItems_fhdr (P : Profile) (hdr : Header) (g : Globals) (its : List Item) (crc0 : BitVec 16) (st' : DecSt)
+    (h : runItems P hdr g its crc0 = .ok st') : st'.fhdr = some hdr := by
+  unfold runItems at h
+  simp only at h
+  split at h
+  · rename_i d r rest
+    split at h
+    · cases h
+    · rename_i st1 h1
+      split at h
+      · cases h
+      · rename_i st2 h2
+        split at h
+        · cases h
+        · rename_i f hf
+          split at h
+          · cases h
+          · rename_i f' hinit
+            rw [stepItems_fhdr P _ st' rest h]
+            simp only [DecSt.fhdr, Option.map_some]
+            rw [FileSt.init_hdr P f f' hinit]
+            have e2 := stepItem_fhdr P st1 st2 r h2
+            have e1 := stepItem_fhdr P _ st1 d h1
+            rw [e1] at e2
+            simp only [DecSt.fhdr, hf, Option.map_some] at e2
+            injection e2 with e2
+            rw [e2]
+  · cases h
 
 end Fit
